@@ -3,7 +3,12 @@ RULE = ("certificate chains (listed/unlisted Ed25519, listed key signed by anoth
         "against allow-lists (empty, one, many, duplicates, one-bit near misses) through PublicKeys.VerifyPeerCertificate, the model being given "
         "x509's parse of the same DER; key lists of lengths 0/31/32/33/64 through ValidPublicKeysFromEd25519 and UpdatePublicKeys; the tls.Config of "
         "all four constructors; end to end over real sockets for both server entry points: listed, unlisted, ECDSA certificate, no certificate, "
-        "listed key without its private key, TLS 1.2, plain ws://, library client with a wrong/right server key through both client entry points")
+        "listed key without its private key, TLS 1.2, plain ws://, library client with a wrong/right server key through both client entry points; "
+        "the CURRENT list: seeded sequences of PublicKeys.Replace (incl. nil and empty lists) after each of which Contains and the verifier "
+        "obtained before must answer for exactly the new list; UpdatePublicKeys to the empty list (no arguments / empty slice) after which no "
+        "formerly listed key gets a session; a key revoked by UpdatePublicKeys coming back with the TLS session cache it filled while listed "
+        "(library certificate: no resumption happens; the peer's own certificate with a validity period and its own clock: resumption happens, "
+        "recorded per case) must not be served")
 ASSUMPTIONS = ["crypto/tls enforces TLS 1.3, proof of possession of the certificate's private key, and calls VerifyPeerCertificate on every full handshake; x509.ParseCertificate is the parser oracle"]
 FILES = ["root/fake_test.go", "root/c16_test.go", "root/c07_test.go", "root/peers_test.go", "root/c18_test.go", "root/c03_test.go"]
 
